@@ -480,3 +480,30 @@ package starlark
 //@   prop C10 C11
 //@   pure
 //@   ensures result <==> isFinite(f)
+
+// ---- steps and cancellation (C07); recursion check (C09)
+//@ func Thread.Cancel
+//@   prop C07
+//@   modifies thread.cancelReason.isset
+//@   ensures thread.cancelReason.isset
+// the recorded reason is never replaced by another one: only Uncancel clears it
+//@ func Thread.Uncancel
+//@   prop C07
+//@   modifies thread.cancelReason.isset
+//@   ensures !thread.cancelReason.isset
+//@ func frame.Callable
+//@   pure
+//@   ensures result == fr.callable
+
+//@ func Function.CallInternal
+//@   prop C07 C09
+//@   modifies *
+//@   invariant 1 rangeindex >= -1 && !f.Prog.Recursion && forall(k, 0, rangeindex + 1, !(typeis(thread.stack[k].callable, *Function) && as(thread.stack[k].callable, *Function).funcode == f))
+//@   assert /fr := thread.frameAt\(0\)/ [C09] recursion_detected: !f.Prog.Recursion ==> forall(k, 0, len(thread.stack) - 1, !(typeis(thread.stack[k].callable, *Function) && as(thread.stack[k].callable, *Function).funcode == f))
+//@   assert /fr := thread.frameAt\(0\)/ [C02] depth_bounded: f.Prog.Recursion ==> len(thread.stack) <= 100000
+//@   snap /thread.Steps\+\+/ s0 = thread.Steps
+//@   snap /thread.Steps\+\+/ nocallback = isnil(thread.OnMaxSteps)
+//@   snap /thread.Steps\+\+/ limit = thread.maxSteps
+//@   assert /fr.pc = pc/ [C07] one_step_per_instruction: nocallback ==> thread.Steps == wrapu64(s0 + 1)
+//@   assert /fr.pc = pc/ [C07] limit_stops_dispatch: nocallback ==> wrapu64(s0 + 1) < limit
+//@   assert /fr.pc = pc/ [C07] cancel_stops_dispatch: !thread.cancelReason.isset
